@@ -32,7 +32,7 @@ func expr(v ssa.Value, d int) string {
 	if v == nil {
 		return "?"
 	}
-	if d == 0 {
+	if d <= 0 {
 		return "…"
 	}
 	switch x := v.(type) {
